@@ -114,13 +114,29 @@ pub fn general_length_step(s: &mut Sink, remaining: u64) -> (u64, bool) {
 
 /// 11.9: length determinant followed by the items (fragmented if necessary).
 /// `lb`/`ub` are the PER-visible effective size bounds (`ub` None = unbounded).
-pub fn length_and_items(
+pub fn length_and_items(s: &mut Sink, n: u64, lb: u64, ub: Option<u64>, items: &mut dyn FnMut(&mut Sink, u64, u64)) {
+    length_and_items_q(s, n, lb, ub, false, false, items)
+}
+
+pub fn length_and_items_q(
     s: &mut Sink,
     n: u64,
     lb: u64,
     ub: Option<u64>,
+    quirk_no_fragmentation: bool,
+    quirk_fixed_ge64k: bool,
     items: &mut dyn FnMut(&mut Sink, u64, u64),
 ) {
+    if quirk_fixed_ge64k && ub == Some(lb) && lb >= 65536 {
+        items(s, 0, n);
+        return;
+    }
+    if quirk_no_fragmentation && !matches!(ub, Some(u) if u < 65536) && n >= 16384 {
+        s.label("length (first fragment header only)");
+        let _ = general_length_step(s, n);
+        items(s, 0, n);
+        return;
+    }
     match ub {
         Some(ub) if ub < 65536 => {
             // 11.9.4.1 / 11.9.3.3: constrained whole number, no fragmentation
@@ -312,6 +328,76 @@ pub fn root_order(m: &Module, set: bool, comps: &[Comp], root_idx: &[usize]) -> 
     order
 }
 
+// ---- quirk models (DESIGN.md 3.8) -------------------------------------------------------------
+// Each quirk reproduces one RECORDED, systematic defect of the subject (known_findings.json). The
+// strict reference never uses them. A check compares: observed == strict => pass; observed ==
+// reference with a (minimal) set of applicable recorded quirks => KNOWN-FINDING; else VIOLATION.
+
+#[derive(Clone, Copy, Debug, PartialEq, Eq, PartialOrd, Ord, Hash)]
+pub enum Quirk {
+    /// INTEGER (a..MAX): written as a constrained whole number over a..i64::MAX (up to 63 bits)
+    SemiConstrainedAs63Bit,
+    /// ENUMERATED index = declaration position instead of rank of the enumeration value
+    EnumIndexInDeclarationOrder,
+    /// CHOICE index = declaration position instead of rank of the alternative's tag
+    ChoiceIndexInDeclarationOrder,
+    /// DEFAULT extension addition is written inline instead of as an open type
+    DefaultAdditionNotOpenType,
+    /// an extension addition with an empty encoding (NULL, empty SEQUENCE) gets length 0, no octet
+    EmptyOpenTypeLengthZero,
+    /// SEQUENCE OF / SET OF / known-multiplier strings of >= 16K items: first fragment header, then
+    /// all items, no further headers
+    NoListFragmentation,
+    /// fixed size >= 64K: no length determinant at all, items unfragmented
+    FixedSizeGe64KNoLength,
+    /// `...` before the first component is treated as if it came after the first component
+    MarkerBeforeFirstAsAfterFirst,
+    /// a u64 value above i64::MAX is written as the negative i64 with the same bits
+    U64AboveI64MaxWrapsNegative,
+    /// INTEGER (0..MAX) is parsed as an unconstrained INTEGER (2's complement instead of semi-constrained)
+    ZeroToMaxAsUnconstrained,
+    /// INTEGER (MIN..b): the missing lower bound is taken as 0 (constrained 0..b) instead of "no lower bound"
+    MinLowerBoundAsZero,
+}
+
+pub const ALL_QUIRKS: [Quirk; 11] = [
+    Quirk::SemiConstrainedAs63Bit,
+    Quirk::EnumIndexInDeclarationOrder,
+    Quirk::ChoiceIndexInDeclarationOrder,
+    Quirk::DefaultAdditionNotOpenType,
+    Quirk::EmptyOpenTypeLengthZero,
+    Quirk::NoListFragmentation,
+    Quirk::FixedSizeGe64KNoLength,
+    Quirk::MarkerBeforeFirstAsAfterFirst,
+    Quirk::U64AboveI64MaxWrapsNegative,
+    Quirk::ZeroToMaxAsUnconstrained,
+    Quirk::MinLowerBoundAsZero,
+];
+
+impl Quirk {
+    pub fn name(&self) -> &'static str {
+        match self {
+            Quirk::SemiConstrainedAs63Bit => "semi-constrained-integer-as-63-bit-field",
+            Quirk::EnumIndexInDeclarationOrder => "enum-index-in-declaration-order",
+            Quirk::ChoiceIndexInDeclarationOrder => "choice-index-in-declaration-order",
+            Quirk::DefaultAdditionNotOpenType => "default-extension-addition-not-open-type",
+            Quirk::EmptyOpenTypeLengthZero => "empty-open-type-length-zero",
+            Quirk::NoListFragmentation => "no-fragmentation-of-lists-and-character-strings",
+            Quirk::FixedSizeGe64KNoLength => "fixed-size-ge64K-has-no-length-determinant",
+            Quirk::MarkerBeforeFirstAsAfterFirst => "marker-before-first-component-read-as-after-first",
+            Quirk::U64AboveI64MaxWrapsNegative => "u64-above-i64max-wraps-negative",
+            Quirk::ZeroToMaxAsUnconstrained => "integer-0-to-max-read-as-unconstrained",
+            Quirk::MinLowerBoundAsZero => "integer-min-lower-bound-read-as-zero",
+        }
+    }
+}
+
+pub type Quirks = std::collections::BTreeSet<Quirk>;
+
+pub fn no_quirks() -> Quirks {
+    Quirks::new()
+}
+
 // ---- the type-directed encoder ---------------------------------------------------------------
 
 #[derive(Debug)]
@@ -333,6 +419,10 @@ fn size_header(s: &mut Sink, size: &Size, n: u64) -> Result<(u64, Option<u64>), 
 }
 
 pub fn encode(m: &Module, ty: &Ty, v: &Value, s: &mut Sink) -> Result<(), RefError> {
+    encode_q(m, ty, v, s, &no_quirks())
+}
+
+pub fn encode_q(m: &Module, ty: &Ty, v: &Value, s: &mut Sink, q: &Quirks) -> Result<(), RefError> {
     let ty = m.resolve(ty);
     match (ty, v) {
         (Ty::Bool, Value::Bool(b)) => {
@@ -344,6 +434,22 @@ pub fn encode(m: &Module, ty: &Ty, v: &Value, s: &mut Sink) -> Result<(), RefErr
             let (lb, ub, ext) = match range {
                 None => (None, None, false),
                 Some(r) => (r.lb(), r.ub(), r.ext),
+            };
+            let (mut lb, mut ub) = (lb, ub);
+            if q.contains(&Quirk::ZeroToMaxAsUnconstrained) && lb == Some(0) && (ub.is_none() || ub == Some(i64::MAX)) && !ext {
+                lb = None;
+                ub = None;
+            }
+            if q.contains(&Quirk::MinLowerBoundAsZero) && lb.is_none() && matches!(range, Some(r) if r.lo == Bound::Min) && ub.is_some() {
+                lb = Some(0);
+            }
+            // quirk: the value travels through to_i64 first, whatever the constraint is
+            let wrapped;
+            let i = if q.contains(&Quirk::U64AboveI64MaxWrapsNegative) && *i > i64::MAX as i128 {
+                wrapped = *i - (1i128 << 64);
+                &wrapped
+            } else {
+                i
             };
             let in_root = lb.map_or(true, |l| *i >= l as i128) && ub.map_or(true, |u| *i <= u as i128);
             if ext {
@@ -362,6 +468,14 @@ pub fn encode(m: &Module, ty: &Ty, v: &Value, s: &mut Sink) -> Result<(), RefErr
                     s.label("INTEGER (constrained)");
                     constrained_whole(s, l as i128, u as i128, *i)
                 }
+                (Some(l), None) if q.contains(&Quirk::SemiConstrainedAs63Bit) => {
+                    s.label("INTEGER (quirk: constrained over lb..i64::MAX)");
+                    if *i > i64::MAX as i128 {
+                        return Err(RefError("quirk model: value above i64::MAX".into()));
+                    }
+                    constrained_whole(s, l as i128, i64::MAX as i128, *i)
+                }
+                (Some(l), Some(u)) if l > u => return Err(RefError("empty range".into())),
                 (Some(l), None) => {
                     s.label("INTEGER (semi-constrained)");
                     semi_constrained(s, l as i128, *i)
@@ -378,7 +492,7 @@ pub fn encode(m: &Module, ty: &Ty, v: &Value, s: &mut Sink) -> Result<(), RefErr
             if *idx < root.len() {
                 // index = rank of this item's value among the root values
                 let my = rv[*idx];
-                let rank = rv.iter().filter(|x| **x < my).count() as u64;
+                let rank = if q.contains(&Quirk::EnumIndexInDeclarationOrder) { *idx as u64 } else { rv.iter().filter(|x| **x < my).count() as u64 };
                 index(s, root.len() as u64, ext.is_some(), Some(rank), None);
             } else {
                 let e = ext.as_ref().ok_or_else(|| RefError("enum index beyond root of non-extensible type".into()))?;
@@ -396,7 +510,7 @@ pub fn encode(m: &Module, ty: &Ty, v: &Value, s: &mut Sink) -> Result<(), RefErr
                 return Ok(());
             }
             s.label("BIT STRING");
-            length_and_items(s, n, lb, ub, &mut |s, a, c| {
+            length_and_items_q(s, n, lb, ub, false, q.contains(&Quirk::FixedSizeGe64KNoLength), &mut |s, a, c| {
                 s.label("bits");
                 s.bits.extend_from_slice(&b[a as usize..(a + c) as usize])
             });
@@ -408,7 +522,7 @@ pub fn encode(m: &Module, ty: &Ty, v: &Value, s: &mut Sink) -> Result<(), RefErr
                 return Ok(());
             }
             s.label("OCTET STRING");
-            length_and_items(s, n, lb, ub, &mut |s, a, c| {
+            length_and_items_q(s, n, lb, ub, false, q.contains(&Quirk::FixedSizeGe64KNoLength), &mut |s, a, c| {
                 s.label("octets");
                 s.octets(&b[a as usize..(a + c) as usize])
             });
@@ -440,7 +554,7 @@ pub fn encode(m: &Module, ty: &Ty, v: &Value, s: &mut Sink) -> Result<(), RefErr
                 return Ok(());
             }
             s.label(cs.asn());
-            length_and_items(s, n, lb, ub, &mut |s, a, c| {
+            length_and_items_q(s, n, lb, ub, q.contains(&Quirk::NoListFragmentation), q.contains(&Quirk::FixedSizeGe64KNoLength), &mut |s, a, c| {
                 s.label("characters");
                 for ch in &chars[a as usize..(a + c) as usize] {
                     let code = if by_value { *ch as u128 } else { alphabet.iter().position(|x| x == ch).unwrap() as u128 };
@@ -453,10 +567,10 @@ pub fn encode(m: &Module, ty: &Ty, v: &Value, s: &mut Sink) -> Result<(), RefErr
             let (lb, ub) = size_header(s, size, n)?;
             s.label("SEQUENCE/SET OF");
             let mut err = None;
-            length_and_items(s, n, lb, ub, &mut |s, a, c| {
+            length_and_items_q(s, n, lb, ub, q.contains(&Quirk::NoListFragmentation), q.contains(&Quirk::FixedSizeGe64KNoLength), &mut |s, a, c| {
                 for (k, it) in items[a as usize..(a + c) as usize].iter().enumerate() {
                     s.push_ctx(&format!("[{}]", a as usize + k));
-                    if let Err(e) = encode(m, inner, it, s) {
+                    if let Err(e) = encode_q(m, inner, it, s, q) {
                         err = Some(e);
                     }
                     s.pop_ctx();
@@ -468,13 +582,16 @@ pub fn encode(m: &Module, ty: &Ty, v: &Value, s: &mut Sink) -> Result<(), RefErr
         }
         (Ty::SeqOf { size, inner, .. }, Value::Bytes(b)) => {
             let items: Vec<Value> = b.iter().map(|x| Value::Int(*x as i128)).collect();
-            return encode(m, &Ty::SeqOf { set: false, size: *size, paren: true, inner: inner.clone() }, &Value::List(items), s);
+            return encode_q(m, &Ty::SeqOf { set: false, size: *size, paren: true, inner: inner.clone() }, &Value::List(items), s, q);
         }
         (Ty::Seq { set, comps, ext_after }, Value::Seq(vals)) => {
             if vals.len() != comps.len() {
                 return Err(RefError("component count mismatch".into()));
             }
-            let nroot = ext_after.unwrap_or(comps.len());
+            let mut nroot = ext_after.unwrap_or(comps.len());
+            if q.contains(&Quirk::MarkerBeforeFirstAsAfterFirst) && *ext_after == Some(0) && !comps.is_empty() {
+                nroot = 1;
+            }
             let root_idx: Vec<usize> = (0..nroot).collect();
             let add_idx: Vec<usize> = (nroot..comps.len()).collect();
             // is component i to be encoded?
@@ -507,7 +624,7 @@ pub fn encode(m: &Module, ty: &Ty, v: &Value, s: &mut Sink) -> Result<(), RefErr
             for i in &order {
                 if present(*i)? {
                     s.push_ctx(&comps[*i].name);
-                    let r = encode(m, &comps[*i].ty, vals[*i].as_ref().unwrap(), s);
+                    let r = encode_q(m, &comps[*i].ty, vals[*i].as_ref().unwrap(), s, q);
                     s.pop_ctx();
                     r?;
                 }
@@ -521,10 +638,22 @@ pub fn encode(m: &Module, ty: &Ty, v: &Value, s: &mut Sink) -> Result<(), RefErr
                 }
                 for i in &add_idx {
                     if present(*i)? {
-                        let mut inner = Sink::new();
-                        encode(m, &comps[*i].ty, vals[*i].as_ref().unwrap(), &mut inner)?;
                         s.push_ctx(&comps[*i].name);
-                        open_type(s, &inner);
+                        if q.contains(&Quirk::DefaultAdditionNotOpenType) && matches!(comps[*i].presence, Presence::Default(_)) {
+                            s.label("addition (quirk: inline, not an open type)");
+                            let r = encode_q(m, &comps[*i].ty, vals[*i].as_ref().unwrap(), s, q);
+                            s.pop_ctx();
+                            r?;
+                            continue;
+                        }
+                        let mut inner = Sink::new();
+                        encode_q(m, &comps[*i].ty, vals[*i].as_ref().unwrap(), &mut inner, q)?;
+                        if q.contains(&Quirk::EmptyOpenTypeLengthZero) && inner.bits.is_empty() {
+                            s.label("open-type length (quirk: 0 for an empty encoding)");
+                            s.uint(0, 8);
+                        } else {
+                            open_type(s, &inner);
+                        }
                         s.pop_ctx();
                     }
                 }
@@ -539,18 +668,23 @@ pub fn encode(m: &Module, ty: &Ty, v: &Value, s: &mut Sink) -> Result<(), RefErr
             if *idx < nroot {
                 let tags = alt_tags(m, alts);
                 let my = tags[*idx];
-                let rank = tags[..nroot].iter().filter(|t| **t < my).count() as u64;
+                let rank = if q.contains(&Quirk::ChoiceIndexInDeclarationOrder) { *idx as u64 } else { tags[..nroot].iter().filter(|t| **t < my).count() as u64 };
                 index(s, nroot as u64, ext_after.is_some(), Some(rank), None);
                 s.push_ctx(&alts[*idx].name);
-                let r = encode(m, &alts[*idx].ty, inner, s);
+                let r = encode_q(m, &alts[*idx].ty, inner, s, q);
                 s.pop_ctx();
                 r?;
             } else {
                 index(s, nroot as u64, true, None, Some((*idx - nroot) as u64));
                 let mut sub = Sink::new();
-                encode(m, &alts[*idx].ty, inner, &mut sub)?;
+                encode_q(m, &alts[*idx].ty, inner, &mut sub, q)?;
                 s.push_ctx(&alts[*idx].name);
-                open_type(s, &sub);
+                if q.contains(&Quirk::EmptyOpenTypeLengthZero) && sub.bits.is_empty() {
+                    s.label("open-type length (quirk: 0 for an empty encoding)");
+                    s.uint(0, 8);
+                } else {
+                    open_type(s, &sub);
+                }
                 s.pop_ctx();
             }
         }
@@ -560,10 +694,139 @@ pub fn encode(m: &Module, ty: &Ty, v: &Value, s: &mut Sink) -> Result<(), RefErr
 }
 
 pub fn encode_top(m: &Module, def: &str, v: &Value) -> Result<Sink, RefError> {
+    encode_top_q(m, def, v, &no_quirks())
+}
+
+pub fn encode_top_q(m: &Module, def: &str, v: &Value, q: &Quirks) -> Result<Sink, RefError> {
     let d = m.find(def).ok_or_else(|| RefError(format!("no definition {def}")))?;
     let mut s = Sink::new();
-    encode(m, &d.ty, v, &mut s)?;
+    encode_q(m, &d.ty, v, &mut s, q)?;
     Ok(s)
+}
+
+/// The recorded quirks that can possibly influence the encoding of `v` (by schema/value features).
+pub fn applicable_quirks(m: &Module, ty: &Ty, v: &Value, out: &mut Quirks) {
+    let ty = m.resolve(ty);
+    let sized = |size: &Size, n: u64, list_like: bool, out: &mut Quirks| {
+        if size.ub() == Some(size.lb()) && size.lb() >= 65536 && n == size.lb() {
+            out.insert(Quirk::FixedSizeGe64KNoLength);
+        }
+        let general = !matches!(size.ub(), Some(u) if u < 65536) || (size.ext() && !size.contains(n));
+        if list_like && general && n >= 16384 {
+            out.insert(Quirk::NoListFragmentation);
+        }
+    };
+    match (ty, v) {
+        (Ty::Int { range, .. }, Value::Int(i)) => {
+            if let Some(r) = range {
+                if r.lb().is_some() && r.ub().is_none() {
+                    out.insert(Quirk::SemiConstrainedAs63Bit);
+                }
+                if r.lb() == Some(0) && (r.ub().is_none() || r.ub() == Some(i64::MAX)) && !r.ext {
+                    out.insert(Quirk::ZeroToMaxAsUnconstrained);
+                }
+                if r.lo == Bound::Min && r.ub().is_some() {
+                    out.insert(Quirk::MinLowerBoundAsZero);
+                }
+            }
+            if *i > i64::MAX as i128 {
+                out.insert(Quirk::U64AboveI64MaxWrapsNegative);
+            }
+        }
+        (Ty::Enum { root, ext }, _) => {
+            let (rv, _) = enum_values(root, ext.as_deref().unwrap_or(&[]));
+            if rv.windows(2).any(|w| w[0] > w[1]) {
+                out.insert(Quirk::EnumIndexInDeclarationOrder);
+            }
+        }
+        (Ty::BitStr { size, .. }, Value::Bits(b)) => sized(size, b.len() as u64, false, out),
+        (Ty::OctStr { size, .. }, Value::Bytes(b)) => sized(size, b.len() as u64, false, out),
+        (Ty::Str { cs, size, .. }, Value::Str(st)) => {
+            if *cs != Charset::Utf8 {
+                sized(size, st.chars().count() as u64, true, out)
+            }
+        }
+        (Ty::SeqOf { size, inner, .. }, Value::List(items)) => {
+            sized(size, items.len() as u64, true, out);
+            // element features: look at a few distinct elements only (they come from a small pool)
+            let mut seen = std::collections::HashSet::new();
+            for it in items {
+                if seen.len() >= 16 {
+                    break;
+                }
+                if seen.insert(it) {
+                    applicable_quirks(m, inner, it, out);
+                }
+            }
+        }
+        (Ty::SeqOf { size, .. }, Value::Bytes(b)) => sized(size, b.len() as u64, true, out),
+        (Ty::Seq { comps, ext_after, .. }, Value::Seq(vals)) => {
+            if *ext_after == Some(0) && !comps.is_empty() {
+                out.insert(Quirk::MarkerBeforeFirstAsAfterFirst);
+            }
+            let nroot = ext_after.unwrap_or(comps.len());
+            for (i, (c, val)) in comps.iter().zip(vals.iter()).enumerate() {
+                if let Some(val) = val {
+                    if i >= nroot || *ext_after == Some(0) {
+                        if matches!(c.presence, Presence::Default(_)) {
+                            out.insert(Quirk::DefaultAdditionNotOpenType);
+                        }
+                        let mut probe = Sink::new();
+                        if encode(m, &c.ty, val, &mut probe).is_ok() && probe.bits.is_empty() {
+                            out.insert(Quirk::EmptyOpenTypeLengthZero);
+                        }
+                    }
+                    applicable_quirks(m, &c.ty, val, out);
+                }
+            }
+        }
+        (Ty::Choice { alts, ext_after }, Value::Choice(idx, inner)) => {
+            let nroot = ext_after.unwrap_or(alts.len());
+            let tags = alt_tags(m, alts);
+            if tags[..nroot].windows(2).any(|w| w[0] > w[1]) {
+                out.insert(Quirk::ChoiceIndexInDeclarationOrder);
+            }
+            if *idx < alts.len() {
+                if *idx >= nroot {
+                    let mut probe = Sink::new();
+                    if encode(m, &alts[*idx].ty, inner, &mut probe).is_ok() && probe.bits.is_empty() {
+                        out.insert(Quirk::EmptyOpenTypeLengthZero);
+                    }
+                }
+                applicable_quirks(m, &alts[*idx].ty, inner, out);
+            }
+        }
+        _ => {}
+    }
+}
+
+/// Smallest subset of `candidates` with which the reference reproduces `observed`, if any
+/// (greedy removal from the full applicable set; exact for independent quirks).
+pub fn explain_with_quirks(m: &Module, def: &str, v: &Value, observed: &[bool], candidates: &Quirks) -> Option<Quirks> {
+    if candidates.is_empty() {
+        return None;
+    }
+    let enc = |q: &Quirks| encode_top_q(m, def, v, q).ok().map(|s| s.bits);
+    if enc(candidates).as_deref() != Some(observed) {
+        // maybe a strict subset reproduces it (a quirk flagged as applicable that the subject does not have here)
+        for q in candidates {
+            let mut one = Quirks::new();
+            one.insert(*q);
+            if enc(&one).as_deref() == Some(observed) {
+                return Some(one);
+            }
+        }
+        return None;
+    }
+    let mut cur = candidates.clone();
+    for q in candidates {
+        let mut t = cur.clone();
+        t.remove(q);
+        if enc(&t).as_deref() == Some(observed) {
+            cur = t;
+        }
+    }
+    Some(cur)
 }
 
 #[cfg(test)]
